@@ -92,13 +92,20 @@ type ReplayFile struct {
 	Confirmed    bool              `json:"confirmed"`
 }
 
+var replayAttempts int
+
 func writeReplay(prog *Program, res *CheckResult, o *Obligation, dir string) (string, bool) {
 	os.MkdirAll(dir, 0o755)
 	rf := ReplayFile{Property: res.Property, Obligation: o.Name, Kind: o.Kind, Function: o.Func, Clause: o.Src,
 		Description: o.Desc, Position: fmt.Sprintf("%s:%d", relPath(o.Pos.Filename), o.Pos.Line),
 		SolverStatus: o.Result.Status, SolverOutput: truncate(o.Result.Output, 4000)}
 	confirmed := false
-	if o.exec != nil {
+	replayAttempts++
+	if o.Kind == "unsupported" {
+		rf.ReplayResult = "no input to search for: the function uses a construct or callee the engine has no contract or model for"
+	} else if replayAttempts > 16 {
+		rf.ReplayResult = "counterexample search skipped: more than 16 failed obligations in this run"
+	} else if o.exec != nil {
 		confirmed = tryReplay(prog, o, &rf)
 	} else {
 		rf.ReplayResult = "no entry-state model: obligation is a lemma or machinery check"
